@@ -368,7 +368,7 @@ def one_case(ctx, rng, k, replay_case=None):
 
 def run_shard(ctx):
     logging.disable(logging.CRITICAL)
-    for k in range(ctx.n(1500, 60000)):
+    for k in range(ctx.n(5000, 60000)):
         if ctx.out_of_time():
             break
         ctx.guarded(one_case, ctx, ctx.rng, k, timeout=60)
